@@ -98,6 +98,17 @@ func drawC19(rt *rapid.T) (*c19Case, *gspec.Grammar) {
 	k := gspec.U(rt, 10, "c19kind")
 	var g *gspec.Grammar
 	c := &c19Case{}
+	if gspec.U(rt, 40, "c19hub") == 0 {
+		// one left-recursive component with thousands of cycles (the leader is the one rule on
+		// every one of them)
+		g = gspec.HubLRGen().Draw(rt, "hub")
+		c.Kind = "hub"
+		c.Flags.LeftRec = gspec.U(rt, 8, "leftrec") != 0
+		c.Text = gspec.Print(g, gspec.PrintOpts{StubCode: true, Layout: gspec.U(rt, 3, "layout")})
+		c.Flags.OptimizeParser = gspec.U(rt, 3, "optparser") == 0
+		c.Flags.Nolint = gspec.U(rt, 3, "nolint") == 0
+		return c, g
+	}
 	switch {
 	case k < 5:
 		g = gspec.LRHuntGen().Draw(rt, "lrhunt")
@@ -108,7 +119,7 @@ func drawC19(rt *rapid.T) (*c19Case, *gspec.Grammar) {
 		c.Kind = "leftrec"
 		c.Flags.LeftRec = true
 	default:
-		prof := gspec.Pick(rt, []string{"optbait", "codeblocks", "throwrecover", "names"}, "profile")
+		prof := gspec.Pick(rt, []string{"optbait", "codeblocks", "throwrecover", "names", "stateful"}, "profile")
 		g = gspec.GrammarGen(gspec.Profile(prof)).Draw(rt, "grammar")
 		c.Kind = prof
 	}
@@ -178,7 +189,11 @@ func TestC19(t *testing.T) {
 			sum.Excluded[ex]++
 			return
 		}
-		kind, diff, _, out := checkC19(c, c19Repeats)
+		repeats := c19Repeats
+		if c.Kind == "hub" {
+			repeats = 6 // (a build takes up to a second)
+		}
+		kind, diff, _, out := checkC19(c, repeats)
 		_, cyc := gspec.HasCycle(gspec.FirstOver(g))
 		nontrivial := cyc || c.Flags.OptimizeGrammar
 		tags := []string{c.Kind}
